@@ -51,6 +51,16 @@ def check_composite(ctx, c, rng, k):
     kw = {'exclude': c.exclude} if c.exclude is not None else {}
     names = names_for(ctx, c, rng)
     wit = c.describe()
+    if k % 2 == 0:
+        # the same texts read under a neighbouring flag set first (results discarded): how a text was split or expanded under
+        # other flags must not leak into this call
+        for other in (mod.EXTMATCH, mod.BRACE, mod.SPLIT, mod.NEGATE):
+            try:
+                mod.compile(c.patterns, flags=flags ^ other, **kw).match(names[0] if names else 'a')
+                mod.translate(c.patterns, flags=flags ^ other, **kw)
+            except Exception:  # noqa: BLE001
+                pass
+        ctx.count('neighbouring_flag_precalls')
     try:
         m = mod.compile(c.patterns, flags=flags, **kw)
         inc_m = [mod.compile(t, flags=sflags) for t, _ in c.inc]
